@@ -287,3 +287,193 @@ theorem getOpcode_refines (script : Bytes) (pc : Nat) (vm : Bool) (b : UInt8) (r
     simp [expectedHandler, h0, h75, h76, h77, h78, h79, h80, h96, e1, e2, Spec.pushValue, hlen]
 
 end Pycoin.Script
+
+namespace Pycoin.Spec
+
+/-- the constant opcode that stands for data `d`, if any: `OP_0`, `OP_1..OP_16`, `OP_1NEGATE` -/
+def smallIntOpcode : Bytes → Option UInt8
+  | [] => some 0x00
+  | [x] =>
+    if 1 ≤ x.toNat ∧ x.toNat ≤ 16 then some (UInt8.ofNat (80 + x.toNat))
+    else if x.toNat = 0x81 then some 0x4f
+    else none
+  | _ :: _ :: _ => none
+
+/-- the push instruction the consensus minimal-push rule demands for data `d` (`|d| < 2^32`):
+a constant opcode where one exists, else a direct push up to 75 bytes, else PUSHDATA1 up to 255, PUSHDATA2 up to
+65535, else PUSHDATA4 -/
+def minimalPush (d : Bytes) : Bytes :=
+  match smallIntOpcode d with
+  | some op => [op]
+  | none =>
+    if d.length ≤ 75 then UInt8.ofNat d.length :: d
+    else if d.length ≤ 255 then 0x4c :: (leBytes d.length 1 ++ d)
+    else if d.length ≤ 65535 then 0x4d :: (leBytes d.length 2 ++ d)
+    else 0x4e :: (leBytes d.length 4 ++ d)
+
+end Pycoin.Spec
+
+namespace Pycoin.Script
+open Pycoin.Gen.Opcodes
+
+theorem constEncoder_eq (d : Bytes) : dictGet d constEncoder = (Spec.smallIntOpcode d).map fun op => [op] := by
+  match d with
+  | [] => rw [constEncoder_nil]; rfl
+  | [x] =>
+    have hx := constEncoder_one x.toNat x.toNat_lt
+    simp only [UInt8.ofNat_toNat] at hx
+    rw [hx]
+    unfold expectedConst Spec.smallIntOpcode
+    by_cases ha : 1 ≤ x.toNat ∧ x.toNat ≤ 16
+    · simp [ha]
+    · by_cases hb : x.toNat = 0x81 <;> simp [ha, hb]
+  | a :: b :: t =>
+    rw [constEncoder_long _ (by simp)]; rfl
+
+theorem smallInt_none_len {d : Bytes} (h : Spec.smallIntOpcode d = none) : 1 ≤ d.length := by
+  match d, h with
+  | [x], _ => simp
+  | _ :: _ :: _, _ => simp
+
+/-- `compile_push_data d` is the minimal push of `d`, for every `d` shorter than 2^32 bytes -/
+theorem compilePushData_eq (d : Bytes) (h : d.length < 2 ^ 32) : compilePushData d = .ok (Spec.minimalPush d) := by
+  unfold compilePushData Spec.minimalPush
+  rw [constEncoder_eq]
+  cases hs : Spec.smallIntOpcode d with
+  | some op => rfl
+  | none =>
+    have h1 := smallInt_none_len hs
+    simp only [Option.map_none, sizedEncoder_eq, variableEncoder_eq]
+    by_cases h75 : d.length ≤ 75
+    · simp [h1, h75]
+    · have : ¬ (1 ≤ d.length ∧ d.length ≤ 75) := by omega
+      simp only [this, if_false, h75]
+      by_cases h255 : d.length ≤ 255
+      · have : d.length < 256 ^ 1 := by omega
+        simp [pickVariable, h255, packLen, leBytes?, this]
+      · by_cases h65535 : d.length ≤ 65535
+        · have : d.length < 256 ^ 2 := by omega
+          simp [pickVariable, h255, h65535, packLen, leBytes?, this]
+        · have : d.length < 256 ^ 4 := by omega
+          simp [pickVariable, h255, h65535, packLen, leBytes?, this]
+
+/-- beyond 2^32 - 1 bytes `struct.pack("<L", …)` raises -/
+theorem compilePushData_overflow (d : Bytes) (h : 2 ^ 32 ≤ d.length) : compilePushData d = .error .structError := by
+  unfold compilePushData
+  rw [constEncoder_eq]
+  have hs : Spec.smallIntOpcode d = none := by
+    match d, h with
+    | _ :: _ :: _, _ => rfl
+  have : ¬ (1 ≤ d.length ∧ d.length ≤ 75) := by omega
+  have h1 : ¬ d.length ≤ 255 := by omega
+  have h2 : ¬ d.length ≤ 65535 := by omega
+  have h3 : ¬ d.length < 256 ^ 4 := by omega
+  simp [hs, sizedEncoder_eq, variableEncoder_eq, this, pickVariable, h1, h2, packLen, leBytes?, h3]
+
+end Pycoin.Script
+
+namespace Pycoin.Script
+
+theorem ofNat_toNat_lt {n : Nat} (h : n < 256) : (UInt8.ofNat n).toNat = n := by
+  simp [UInt8.toNat_ofNat']; omega
+
+theorem checkMinimal_direct (d : Bytes) (hs : Spec.smallIntOpcode d = none) (h75 : d.length ≤ 75) :
+    Spec.checkMinimalPush d.length d = true := by
+  have h1 := smallInt_none_len hs
+  unfold Spec.checkMinimalPush
+  have h0 : ¬ d.length = 0 := by omega
+  match d, hs, h1 with
+  | [x], hs, _ =>
+    unfold Spec.smallIntOpcode at hs
+    by_cases ha : 1 ≤ x.toNat ∧ x.toNat ≤ 16
+    · simp [ha] at hs
+    · by_cases hb : x.toNat = 0x81
+      · simp [ha, hb] at hs
+      · simp [ha, hb]
+  | a :: b :: t, _, _ =>
+    have : ¬ (a :: b :: t).length = 1 := by simp
+    simp only [h0, this, false_and, if_false, h75, if_true]
+    simp
+
+/-- Core's `GetScriptOp` reads the minimal push of `d` back as `d`, and `CheckMinimalPush` accepts it -/
+theorem getScriptOp_minimalPush (d rest : Bytes) (h : d.length < 2 ^ 32) :
+    ∃ opc payload, Spec.getScriptOp (Spec.minimalPush d ++ rest) = some (opc, payload, rest) ∧
+      Spec.pushValue opc payload = some d ∧ (opc ≤ 0x4e → Spec.checkMinimalPush opc payload = true) := by
+  unfold Spec.minimalPush
+  cases hs : Spec.smallIntOpcode d with
+  | some op =>
+    match d, hs with
+    | [], hs =>
+      cases hs
+      exact ⟨0, [], by simp [getScriptOp_cons, specOp], by simp [Spec.pushValue], by simp [Spec.checkMinimalPush]⟩
+    | [x], hs =>
+      unfold Spec.smallIntOpcode at hs
+      have hx : x.toNat < 256 := x.toNat_lt
+      by_cases ha : 1 ≤ x.toNat ∧ x.toNat ≤ 16
+      · simp only [ha, and_self, if_true] at hs
+        cases hs
+        have ht : (UInt8.ofNat (80 + x.toNat)).toNat = 80 + x.toNat := ofNat_toNat_lt (by omega)
+        refine ⟨80 + x.toNat, [], ?_, ?_, by omega⟩
+        · have : ¬ 80 + x.toNat ≤ 78 := by omega
+          have hmod : (80 + x.toNat) % 256 = 80 + x.toNat := by omega
+          simp [getScriptOp_cons, specOp, hmod, this]
+        · have h1 : ¬ 80 + x.toNat ≤ 78 := by omega
+          have h2 : ¬ 80 + x.toNat = 79 := by omega
+          have h3 : 81 ≤ 80 + x.toNat ∧ 80 + x.toNat ≤ 96 := by omega
+          simp [Spec.pushValue, h1, h2, h3]
+      · by_cases hb : x.toNat = 0x81
+        · simp only [ha, if_false, hb, if_true] at hs
+          cases hs
+          refine ⟨0x4f, [], by simp [getScriptOp_cons, specOp], ?_, by omega⟩
+          have : x = 0x81 := by
+            have := congrArg UInt8.ofNat hb
+            simpa using this
+          simp [Spec.pushValue, this]
+        · simp [ha, hb] at hs
+  | none =>
+    have h1 := smallInt_none_len hs
+    simp only
+    by_cases h75 : d.length ≤ 75
+    · simp only [h75, if_true]
+      have ht : (UInt8.ofNat d.length).toNat = d.length := ofNat_toNat_lt (by omega)
+      refine ⟨d.length, d, ?_, by simp [Spec.pushValue]; omega, fun _ => checkMinimal_direct d hs h75⟩
+      have e1 : d.length ≤ 78 := by omega
+      have e2 : d.length < 76 := by omega
+      simp [getScriptOp_cons, specOp, ht, e1, e2]
+    · have hne1 : ¬ d.length = 1 := by omega
+      have hne0 : ¬ d.length = 0 := by omega
+      by_cases h255 : d.length ≤ 255
+      · simp only [h75, if_false, h255, if_true]
+        have hl : leNat (leBytes d.length 1) = d.length := leNat_leBytes_of_lt (by omega)
+        refine ⟨0x4c, d, ?_, by simp [Spec.pushValue], fun _ => by simp [Spec.checkMinimalPush, hne0, hne1, h75, h255]⟩
+        have e : (List.take 1 (leBytes d.length 1 ++ (d ++ rest))) = leBytes d.length 1 := by
+          rw [List.take_left' (by simp)]
+        have e' : (List.drop 1 (leBytes d.length 1 ++ (d ++ rest))) = d ++ rest := by
+          rw [List.drop_left' (by simp)]
+        simp only [List.cons_append, List.append_assoc, getScriptOp_cons, specOp]
+        simp [e, e', hl]
+      · by_cases h65535 : d.length ≤ 65535
+        · simp only [h75, if_false, h255, h65535, if_true]
+          have hl : leNat (leBytes d.length 2) = d.length := leNat_leBytes_of_lt (by omega)
+          refine ⟨0x4d, d, ?_, by simp [Spec.pushValue], fun _ => by simp [Spec.checkMinimalPush, hne0, hne1, h75, h255, h65535]⟩
+          have e : (List.take 2 (leBytes d.length 2 ++ (d ++ rest))) = leBytes d.length 2 := by
+            rw [List.take_left' (by simp)]
+          have e' : (List.drop 2 (leBytes d.length 2 ++ (d ++ rest))) = d ++ rest := by
+            rw [List.drop_left' (by simp)]
+          simp only [List.cons_append, List.append_assoc, getScriptOp_cons, specOp]
+          have hw2 : ¬ 2 + (d.length + rest.length) < 2 := by omega
+          have hw4 : ¬ 4 + (d.length + rest.length) < 4 := by omega
+          simp [e, e', hl, hw2, hw4]
+        · simp only [h75, if_false, h255, h65535]
+          have hl : leNat (leBytes d.length 4) = d.length := leNat_leBytes_of_lt (by omega)
+          refine ⟨0x4e, d, ?_, by simp [Spec.pushValue], fun _ => by simp [Spec.checkMinimalPush, hne0, hne1, h75, h255, h65535]⟩
+          have e : (List.take 4 (leBytes d.length 4 ++ (d ++ rest))) = leBytes d.length 4 := by
+            rw [List.take_left' (by simp)]
+          have e' : (List.drop 4 (leBytes d.length 4 ++ (d ++ rest))) = d ++ rest := by
+            rw [List.drop_left' (by simp)]
+          simp only [List.cons_append, List.append_assoc, getScriptOp_cons, specOp]
+          have hw2 : ¬ 2 + (d.length + rest.length) < 2 := by omega
+          have hw4 : ¬ 4 + (d.length + rest.length) < 4 := by omega
+          simp [e, e', hl, hw2, hw4]
+
+end Pycoin.Script
